@@ -12,7 +12,7 @@ use wirefilter_ffi as ffi;
 const PRIMS: [RType; 4] = [RType::Bool, RType::Bytes, RType::Int, RType::Ip];
 
 /// layer string: bit k of `bits` (k = 0 is the OUTERMOST layer) 0 = array, 1 = map
-fn build_type(prim: &RType, len: usize, bits: u64) -> RType {
+pub(crate) fn build_type(prim: &RType, len: usize, bits: u64) -> RType {
     let mut t = prim.clone();
     for k in (0..len).rev() {
         t = if (bits >> k) & 1 == 0 {
@@ -156,7 +156,7 @@ fn check_type(run: &Run, l: &mut Local, fam: &str, i: u64, rt: &RType) {
     }
 }
 
-fn type_json_text(prim: &str, layers: &[bool]) -> String {
+pub(crate) fn type_json_text(prim: &str, layers: &[bool]) -> String {
     // layers[0] outermost; true = Map
     let mut s = String::new();
     for m in layers {
@@ -169,7 +169,7 @@ fn type_json_text(prim: &str, layers: &[bool]) -> String {
     s
 }
 
-fn name_pool(r: &mut Rng) -> String {
+pub(crate) fn name_pool(r: &mut Rng) -> String {
     match r.below(9) {
         0 => format!("f{}", r.below(1000)),
         1 => format!("http.request.headers.h{}", r.below(100)),
@@ -183,7 +183,7 @@ fn name_pool(r: &mut Rng) -> String {
     }
 }
 
-fn scheme_desc(s: &Scheme) -> Vec<(String, RType, bool)> {
+pub(crate) fn scheme_desc(s: &Scheme) -> Vec<(String, RType, bool)> {
     s.fields()
         .map(|f| {
             (
